@@ -335,6 +335,9 @@ pub fn run(tier: Tier) -> i32 {
         crash_subject: "render".into(),
     };
     let g = gen(maxlen);
+    if let Some(art) = crate::common::replay_artefact() {
+        return crate::common::finish_replay("C18", &art, &|ws| confirm_enum(&o, &g, ws));
+    }
     let out = run_enum(&o, &g);
     if tier.is_thorough() && crate::common::embedded_fd().is_none() {
         // the same enumeration (quick alphabets) in the dev-like build: debug assertions live,
